@@ -14,6 +14,9 @@ use std::num::NonZeroUsize;
 use std::sync::Arc;
 use vcommon::util;
 
+#[path = "c17t.rs"]
+mod threads;
+
 /// transparent adapter so that TrackConsumersPool (generic over an owned pool) can wrap any pool
 #[derive(Debug)]
 struct Dyn(Arc<dyn MemoryPool>);
@@ -57,8 +60,48 @@ struct Pools {
     peak: Option<Arc<PeakRecordingPool>>,
 }
 
+/// self-test only (never part of a verdict): a greedy pool whose try_grow is "add, then roll back and
+/// fail when over the limit" - sequentially identical to the real pool, wrong under concurrency.  Used to
+/// show that the thread layer's oracles can observe exactly this class of defect.
+#[derive(Debug)]
+struct AddThenRollback {
+    limit: usize,
+    used: std::sync::atomic::AtomicUsize,
+}
+impl Display for AddThenRollback {
+    fn fmt(&self, f: &mut Formatter<'_>) -> std::fmt::Result {
+        write!(f, "selftest")
+    }
+}
+impl MemoryPool for AddThenRollback {
+    fn name(&self) -> &str {
+        "selftest"
+    }
+    fn grow(&self, _r: &MemoryReservation, a: usize) {
+        self.used.fetch_add(a, std::sync::atomic::Ordering::Relaxed);
+    }
+    fn shrink(&self, _r: &MemoryReservation, s: usize) {
+        self.used.fetch_sub(s, std::sync::atomic::Ordering::Relaxed);
+    }
+    fn try_grow(&self, _r: &MemoryReservation, a: usize) -> datafusion_common::Result<()> {
+        let new = self.used.fetch_add(a, std::sync::atomic::Ordering::Relaxed) + a;
+        if new > self.limit {
+            self.used.fetch_sub(a, std::sync::atomic::Ordering::Relaxed);
+            return Err(DataFusionError::ResourcesExhausted("selftest".into()));
+        }
+        Ok(())
+    }
+    fn reserved(&self) -> usize {
+        self.used.load(std::sync::atomic::Ordering::Relaxed)
+    }
+    fn memory_limit(&self) -> MemoryLimit {
+        MemoryLimit::Finite(self.limit)
+    }
+}
+
 fn build(kind: &str, limit: usize, wrap: usize) -> Pools {
     let base: Arc<dyn MemoryPool> = match kind {
+        "selftest" => Arc::new(AddThenRollback { limit, used: Default::default() }),
         "unbounded" => Arc::new(UnboundedMemoryPool::default()),
         "greedy" => Arc::new(GreedyMemoryPool::new(limit)),
         _ => Arc::new(FairSpillPool::new(limit)),
@@ -417,8 +460,20 @@ pub fn main() {
     let mut tool_errors: Vec<String> = vec![];
     let mut per_wrap = vec![0u64; WRAPS.len()];
     let mut per_kind = std::collections::BTreeMap::<String, u64>::new();
+    if util::arg("--mode").as_deref() == Some("threads") {
+        let res = threads::main_threads(seed, util::tier_quick(), None);
+        std::fs::write(&out, serde_json::to_string(&res).unwrap()).unwrap();
+        util::summary(json!({"evaluations": res["evaluations"], "violations": res["violations"].as_array().unwrap().len()}));
+        return;
+    }
     if let Some(rp) = util::arg("--replay") {
         let v: Value = serde_json::from_str(&std::fs::read_to_string(&rp).expect("replay file")).expect("json");
+        if v["kind"] == "threads" {
+            let res = threads::main_threads(seed, util::tier_quick(), Some(threads::cfg_from(&v["violation"]["case"])));
+            std::fs::write(&out, serde_json::to_string(&res).unwrap()).unwrap();
+            util::summary(json!({"evaluations": 1, "violations": res["violations"].as_array().unwrap().len()}));
+            return;
+        }
         let wrap = WRAPS.iter().position(|w| *w == v["violation"]["wrap"].as_str().unwrap_or("plain")).unwrap_or(0);
         let mut obs = vec![];
         match one(&v["violation"]["case"], v["case_index"].as_u64().unwrap_or(0) as usize, wrap, v["harness_seed"].as_u64().unwrap_or(seed), &mut st, &mut obs) {
